@@ -1,5 +1,5 @@
 ALL = ["C%02d" % i for i in range(1, 21)]
-HOOK_COMMITS = []
+HOOK_COMMITS = ['562a32a23f1517adc0af0563a69faa71c969cde3']  # cmd/cmaf-ingest-receiver/app/verif_hooks.go (//go:build verif, add-only)
 
 TEXTS = {
  "C20": dict(
@@ -66,6 +66,12 @@ TEXTS.update({
  "C15": _t("rapid property test; differential between a scanning, a writing and a cache-loaded server over generated vod roots with injected cache faults",
            EXPL_NOTE + "Each case builds a vod root (bundled + generated + inadmissible layouts), damages cache files in 7 ways and compares every response of the request set.",
            TRUST + " vod.Load (harness) names the request set; gzip determinism of the Go standard library.", "DESIGN.md §7 C15"),
+ "C08": _t("rapid hostile-request generation against a panic-transparent copy of the router (chi.Walk); validity predicate (no panic, terminates, deliberate status, 4xx/404 classes)",
+           EXPL_NOTE + "Tens of thousands of requests per run over every URL key x hostile value, singly and pairwise, all endpoints and methods; panics are reported with value and first livesim2 frame.",
+           TRUST + " /debug, /metrics and the external /player proxy are excluded; upload bodies above 16 MiB declared size are not generated.", "DESIGN.md §7 C08"),
+ "C17": _t("rapid-generated upload interleavings with an invariant evaluated after every upload (hook VerifQuiesce as observation point); bounded enumeration of all merges for 2x4 in the thorough tier",
+           EXPL_NOTE + "Schedules in order, with gaps, duplicates, shuffled, late tracks, windows smaller and larger than the run, plus a catch-up suffix for bounded progress.",
+           TRUST + " verif_hooks.go (build tag verif); unshifted uploads only; two open known findings (stragglers, fast track deletes listed segments).", "DESIGN.md §7 C17"),
 })
 
 _claimed = set(TEXTS)
